@@ -49,6 +49,16 @@ func sharedGenesis() *genesis.Genesis {
 	return gene
 }
 
+// closeChain releases the in-memory databases of a chain built for one case (muxdb keeps a leveldb session and its
+// goroutines alive until closed)
+func closeChain(c *testchain.Chain) {
+	if c == nil {
+		return
+	}
+	_ = c.LogDB().Close()
+	_ = c.Database().Close()
+}
+
 func newChain() *testchain.Chain {
 	c, err := testchain.NewIntegrationTestChainWithGenesis(sharedGenesis(), &forkCfg, epochLen)
 	if err != nil {
